@@ -368,6 +368,10 @@ class CallMixin:  # pylint:disable=too-many-public-methods
             cls = self.model.classes.get(v.cls)
             if cls is not None:
                 member = self.model.class_member(cls, attr)
+                if member is not None and member[0] == "external":
+                    if attr == "transform":
+                        return BoundExt(v, "transform")
+                    member = None
                 if member is not None and member[0] == "method":
                     m = member[1]
                     if any((dotted(d) or "") == "staticmethod" for d in m.node.decorator_list):
@@ -409,6 +413,8 @@ class CallMixin:  # pylint:disable=too-many-public-methods
                     c = self.model.classes.get(cn)
                     if c is not None and attr in c.methods:
                         return FuncVal(fn=c.methods[attr], self_obj=target, module=c.module)
+                    if c is None and cn in ("lark.Transformer", "lark.visitors.Transformer") and attr == "transform" and isinstance(target, Obj):
+                        return BoundExt(target, "transform")  # lark's own transform (lemma L3)
                 return BoundExt(v, attr)  # an external base class: modelled as a no-op
             if v.cls == "contextvars.ContextVar" and attr in ("get", "set", "reset"):
                 return BoundExt(v, attr)
